@@ -18,8 +18,7 @@ CONSTANTS
   MaxStops = 0
   MaxExpire = 1
   IgnoredStarts = TRUE
-  RaceFinder = FALSE
-  RaceBuffer = FALSE
+  PreRepair = FALSE
 VIEW view
 PROPERTIES Terminates
 CHECK_DEADLOCK FALSE
